@@ -61,6 +61,21 @@ CHECKS = {
          "After every operation forward and reverse lookups are compared with the model for VLANAllocator, qinq.Mapper, pppoe.SessionManager (incl. id wrap-around and two sessions from one MAC), MemoryAllocationStore, subscriber.Manager and state.Store; ranges are checked; every history ends by draining the allocator so a released key must be obtainable again; for stores that cannot refuse a duplicate key the weaker sole-holder oracle of DESIGN 5b is used.",
          "Trusted: the bijection model. 64-bit FNV collisions cannot be generated; concurrency is outside C20's quantifier. state.Store index defects are listed known findings.",
          "DESIGN.md §5 C20"),
+ "C04": ("c04_pppoe_auth", "exploration",
+         "permission-automaton monitor over the real pppoe.Server receive and cleanup loops on an in-memory raw socket under testing/synctest, with the real radius.Client against a scripted loopback RADIUS server; BFS with fingerprint pruning plus seeded random walks",
+         "The monitor grants a session permission only when a PAP exchange carried by frames from the MAC that created the session was accepted (by the scripted RADIUS when one is configured); Established, an assigned client address or an acknowledged/Nak-with-address IPCP exchange without permission is a violation; for every frame every session owned by another MAC must have an identical snapshot before and after. 67-letter alphabet (frame kinds x own id / other live id / foreign station / dead id, idle tick), depth 4 quick / 6 thorough over 4 configurations, RADIUS accept/reject/challenge/unreachable/timeout.",
+         "Trusted: the monitor's ownership record (taken from the PADR source, never from the server's own field) and the hand-rolled RFC 2865 server. CHAP is not dispatched by the server; malformed frames are C09's.",
+         "DESIGN.md §5 C04"),
+ "C07": ("c07_bounds", "exploration",
+         "sanitizer + guard-page monitor: every XDP/TC program of bpf/*.c compiled natively with ASan+UBSan (reports fatal) executes frames placed flush against an inaccessible page on either side; pass-verdict byte-diff oracle driven by the program's own map-lookup log; the -target bpf object must pass the in-kernel verifier and agree with the native run",
+         "Seven programs x three map states (empty, populated through the real Go managers via kernel maps, adversarial values) x every truncation of ~300 structured frame families (Ethernet/802.1Q/QinQ/triple tags, IHL 0-15, DHCP with option 53/82 at every probed offset, relayed, short options, TCP/UDP/ICMP/GRE/fragments/IPv6/ARP) and random bytes of every length 0-1600, both placements: no sanitizer report or fault, defined verdict, pass verdict => frame byte-identical unless the program's NAT-state lookups matched.",
+         "Trusted: the native shim executes the same C semantics but not the BPF instruction stream (the kernel run cross-checks full-length frames); red zones/guard pages do not see intra-object overflows; verifier acceptance is recorded separately.",
+         "DESIGN.md §5 C07"),
+ "C10": ("c10_nat", "exploration",
+         "shadow-model monitor over real nat.Manager histories (exhaustive + random), a second log-only model replayed from the real nat.Logger output for attribution, porcupine per-subscriber linearizability and pairwise disjointness of concurrent histories under the Go race detector",
+         "Every returned block is judged for range, size, disjointness from every live block on the public address and stability until release; after every operation the log alone (plus configured block size) must attribute every probed (public address, port, instant) to exactly the subscriber the manager's return values say; concurrent families F1-F3 (allocate-only, mixed, same-IP races) run at GOMAXPROCS 2/4/16.",
+         "Trusted: the block/attribution models; virtual time for log timestamps. The DHCP server call sites only forward to the manager and are not driven.",
+         "DESIGN.md §5 C10"),
 }
 
 REASON_TODO = "check not yet built in this revision of /verif (planned in DESIGN.md §5); nothing is claimed for it"
